@@ -13,7 +13,6 @@ import (
 	"time"
 
 	"verifh/ev"
-	"verifh/refeval"
 )
 
 // The local executor runs user code and slice readers on goroutines of its own;
@@ -221,6 +220,5 @@ func runOnly(c *checker, spec string) {
 	case <-done:
 	case <-time.After(5 * time.Minute):
 	}
-	_ = refeval.Chunk
 	os.Exit(0)
 }
